@@ -31,7 +31,7 @@ def SPEC(tier):
             c.flags.append('-DOPS_WITH_MEDIUMP')
     else:
         d.update(dict(COMBOS))
-        cfgs += [Cfg(n, d[n]) for n in QUICK] + [Cfg('O0', opt='-O0'), Cfg('clang-O2', compiler='clang++')]
+        cfgs += [Cfg(n, d[n]) for n in QUICK] + [Cfg('O0', opt='-O0'), Cfg('clang-O2', compiler='clang++'), Cfg('cxx98-clang', ['-DGLM_FORCE_CXX98'], compiler='clang++')]
     st = driver_stage('C15', cfgs, 'bits', 2000, 50000)
     return {'stages': [st], 'assumptions': props.COMMON_ASSUME + ['"aligned types without intrinsics" cannot be built with gcc/clang on Linux (needs the MS language-extension flag, which only the SIMD arch bit provides); handedness, depth range, default precision and SIMD are semantic switches and deliberately absent'],
             'rule': 'one target per operation instance of the operation table, all on packed types; the same generated input slots go to a baseline library and to one library per configuration '
@@ -41,6 +41,6 @@ def SPEC(tier):
 META = dict(
     technique='bit-exact differential testing between separately compiled GLM configurations (macro / language level / optimisation level / compiler) over a generated operation table',
     text='The operation table (~3300 instances quick, ~5000 thorough) is compiled once per configuration into its own shared library; identical inputs are run through all of them in one process and every output is '
-         'compared bit for bit against the baseline. Quick: 12 configurations; thorough: 35 (all single macros of the statement, 4 combinations, O0/O2/O3, g++ and clang++).',
+         'compared bit for bit against the baseline. Quick: 13 configurations; thorough: 35 (all single macros of the statement, 4 combinations, O0/O2/O3, g++ and clang++).',
     note='-ffp-contract=off -fno-fast-math are fixed across the matrix (compiler semantics, not GLM settings). Two NaN results are treated as equal whatever their payload.',
     design='6/C15')
